@@ -246,7 +246,7 @@ def rotations():
 
 
 def psd_lattice(tier):
-    eig = [0.0, 1e-8, 1e-4, 1.0, 1.0e4]      # up to (100 m)^2: rank-deficient AND large (eigenvalue rounding noise is relative)
+    eig = [0.0, 1e-8, 1e-4, 1.0, 1.0e4, 1.0e7]      # up to (3 km)^2: rank-deficient AND large (eigenvalue rounding noise is relative)
     out = []
     trip = [(a, b, c) for a in eig for b in eig for c in eig if a >= b >= c]
     for k, (a, b, c) in enumerate(trip):
